@@ -267,6 +267,17 @@ func (c *Conn) Handshake(ctx context.Context, endpoint string) error {
 			ack.MaxMessageSize = DefaultMaxMessageSize
 			debug.Printf("uacp %d: server has no message size limit. Using %d", c.id, ack.MaxMessageSize)
 		}
+		// The Acknowledge describes the server: its receive buffer bounds what
+		// we may send and its send buffer what we have to accept. Neither may
+		// exceed what we announced in the Hello (Part 6, 7.1.2.4).
+		sendBufSize, recvBufSize := ack.ReceiveBufSize, ack.SendBufSize
+		if sendBufSize > hel.SendBufSize {
+			sendBufSize = hel.SendBufSize
+		}
+		if recvBufSize > hel.ReceiveBufSize {
+			recvBufSize = hel.ReceiveBufSize
+		}
+		ack.SendBufSize, ack.ReceiveBufSize = sendBufSize, recvBufSize
 		c.ack = ack
 		debug.Printf("uacp %d: recv %#v", c.id, ack)
 		return nil
@@ -308,6 +319,17 @@ func (c *Conn) srvhandshake(endpoint string) error {
 		//	c.SendError(ua.StatusBadTCPEndpointURLInvalid)
 		//	return fmt.Errorf("uacp: invalid endpoint url %s", hel.EndpointURL)
 		//}
+		// Revise the buffer sizes for this connection: never send more than
+		// the client can receive nor expect more than the client will send.
+		// The listener's ack is shared between connections, so work on a copy.
+		ack := *c.ack
+		if hel.ReceiveBufSize < ack.SendBufSize {
+			ack.SendBufSize = hel.ReceiveBufSize
+		}
+		if hel.SendBufSize < ack.ReceiveBufSize {
+			ack.ReceiveBufSize = hel.SendBufSize
+		}
+		c.ack = &ack
 		if err := c.Send("ACKF", c.ack); err != nil {
 			c.SendError(ua.StatusBadTCPInternalError)
 			return err
